@@ -276,6 +276,101 @@ def check(run):
                         reals.append(r)
                         if len(run.samples) < 4 and e2err is None and e2:
                             run.sample({'slice': rq, 'jug': g2, 'python': e2})
+    # ---------------- compositions: a mapped sequence (or a slice of one) as the input of a further map / mapreduce, with other steps
+    def lst_or_err(fn):
+        try:
+            return fn(), None
+        except Exception as e:
+            return None, _exc_name(e)
+    comp_n = [0, 1, 2, 5, 8] if quick else list(range(0, 11))
+    comp_steps = [1, 2, 3, 4] if quick else [1, 2, 3, 4, 5, 7]
+    for n, ms1, ms2 in itertools.product(comp_n, comp_steps, comp_steps):
+        if quick and rng.random() < 0.4 and (ms1, ms2) != (2, 3):
+            continue
+        for shape in ('map-of-map', 'map-of-slice', 'mapreduce-of-map', 'map-of-map-tg'):
+            from jug.mapreduce import map as jmap, mapreduce as jmr
+            jugenv.reset()
+            del F.CALLS[:]
+            xs = list(range(n))
+            ref1 = [2 * x + 1 for x in xs]
+            rp = {'kind': 'compose', 'shape': shape, 'n': n, 'ms1': ms1, 'ms2': ms2}
+            run.case(('compose', shape, n, ms1, ms2), nontrivial=n > max(ms1, ms2))
+            run.count('composition_cases')
+            try:
+                m1 = jmap(F.tg_f21 if shape.endswith('tg') else F.f21, xs, map_step=ms1)
+                if shape in ('map-of-map', 'map-of-map-tg'):
+                    src, refsrc = m1, ref1
+                elif shape == 'map-of-slice':
+                    sl = slice(rng.choice([None, 1, -3]), rng.choice([None, -1, 6]), rng.choice([None, 2, -1]))
+                    rp['slice'] = [sl.start, sl.stop, sl.step]
+                    src, refsrc = (m1[sl] if ms1 > 1 else m1[sl]), ref1[sl]
+                else:
+                    src, refsrc = m1, ref1
+                if shape == 'mapreduce-of-map':
+                    if n == 0:
+                        continue
+                    t = jmr(F.cat, F.wrap, src, map_step=ms2, reduce_step=2 + ms1 % 3)
+                    jugenv.run_all()
+                    got = value(t)
+                    exp = functools.reduce(lambda a, b: a + b, [[y] for y in refsrc])
+                    if got != exp:
+                        run.fail('compose-value', 'mapreduce(cat, wrap, map(f, range(%d), map_step=%d), map_step=%d) = %r, Python gives %r' % (n, ms1, ms2, got, exp), rp)
+                    continue
+                m2 = jmap(F.tg_g3 if shape.endswith('tg') else F.g3, src, map_step=ms2)
+                jugenv.run_all()
+                ref2 = [3 * y + 2 for y in refsrc]
+                got = value(m2)
+                if got != ref2:
+                    run.fail('compose-value', '%s: value = %r, Python gives %r (n=%d, map_step %d then %d)' % (shape, got, ref2, n, ms1, ms2), rp)
+                if ms2 == 1 and not isinstance(m2, list):
+                    pass
+                for pidx in range(-len(ref2) - 1, len(ref2) + 1):
+                    e_i = lst_or_err(lambda: ref2[pidx])
+                    g_i = lst_or_err(lambda: value(m2[pidx]))
+                    if e_i != g_i:
+                        run.fail('compose-index', '%s (n=%d, map_step %d then %d): element [%d] = %r/%s, the list gives %r/%s' % (shape, n, ms1, ms2, pidx, g_i[0], g_i[1], e_i[0], e_i[1]), dict(rp, index=pidx))
+                        break
+                for _ in range(6):
+                    s2 = slice(rng.choice(bounds), rng.choice(bounds), rng.choice([None, 1, 2, -1, -2]))
+                    e_s = lst_or_err(lambda: ref2[s2])
+                    g_s = lst_or_err(lambda: value(m2[s2]))
+                    if e_s != g_s:
+                        run.fail('compose-slice', '%s (n=%d, map_step %d then %d): [%s:%s:%s] = %r/%s, the list gives %r/%s' % (shape, n, ms1, ms2, s2.start, s2.stop, s2.step, g_s[0], g_s[1], e_s[0], e_s[1]), dict(rp, slice2=[s2.start, s2.stop, s2.step]))
+                        break
+                ncalls = sorted(c[1] for c in F.CALLS if isinstance(c, tuple) and c[0] == 'g')
+                if ncalls != sorted(refsrc):
+                    run.fail('compose-mapped-once', '%s (n=%d, map_step %d then %d): the second mapper was called on %r, expected each of %r once' % (shape, n, ms1, ms2, ncalls, sorted(refsrc)), rp)
+            except Exception as e:
+                run.fail('compose-raises', '%s raised %r (n=%d, map_step %d then %d)' % (shape, e, n, ms1, ms2), rp)
+    # ---------------- None and falsy values among the mapped / reduced values; reducers for which None is not neutral
+    for n, ms, rs in itertools.product([1, 2, 3, 4, 6, 9] if quick else range(1, 14), [1, 2, 3] if quick else [1, 2, 3, 4, 5], [2, 3] if quick else [2, 3, 4, 5]):
+        xs = list(range(n))
+        for mname, rname in (('opt3', 'allornone'), ('opt3', 'pairup'), ('falsy', 'pairup'), ('falsy', 'first'), ('falsy', 'last'), ('boxed', 'allornone'), ('tg_opt3', 'tg_allornone')):
+            mf, rf = getattr(F, mname), getattr(F, rname)
+            rawm = getattr(mf, 'f', mf)
+            rawr = getattr(rf, 'f', rf)
+            rp = {'kind': 'falsy', 'mapper': mname, 'reducer': rname, 'n': n, 'ms': ms, 'rs': rs}
+            run.case(('falsy', mname, rname, n, ms, rs), nontrivial=n > ms)
+            run.count('falsy_value_cases')
+            try:
+                save = list(F.CALLS)
+                exp = functools.reduce(rawr, [rawm(x) for x in xs])
+                expmap = [rawm(x) for x in xs]
+                from jug.mapreduce import map as jmap, mapreduce as jmr
+                jugenv.reset()
+                t = jmr(rf, mf, xs, map_step=ms, reduce_step=rs)
+                m = jmap(mf, xs, map_step=ms)
+                rd = jreduce(rf, [rawm(x) for x in xs], reduce_step=rs)
+                jugenv.run_all()
+                got, gotmap, gotrd = value(t), value(m), value(rd)
+                if got != exp or type(got) != type(exp):
+                    run.fail('falsy-mapreduce', 'mapreduce(%s, %s, range(%d), map_step=%d, reduce_step=%d) = %r, functools.reduce(r, map(m, xs)) = %r' % (rname, mname, n, ms, rs, got, exp), rp)
+                if gotrd != exp or type(gotrd) != type(exp):
+                    run.fail('falsy-reduce', 'reduce(%s, %r, reduce_step=%d) = %r, functools.reduce gives %r' % (rname, expmap, rs, gotrd, exp), rp)
+                if gotmap != expmap or [type(v) for v in gotmap] != [type(v) for v in expmap]:
+                    run.fail('falsy-map', 'map(%s, range(%d), map_step=%d) = %r, Python gives %r' % (mname, n, ms, gotmap, expmap), rp)
+            except Exception as e:
+                run.fail('falsy-raises', 'mapreduce/map/reduce with %s/%s raised %r (n=%d map_step=%d reduce_step=%d)' % (mname, rname, e, n, ms, rs), rp)
     # CPython slice.indices vs the model, on the whole box
     for n in NS:
         for a, b, c in itertools.product(bounds, bounds, steps):
